@@ -82,9 +82,68 @@ theorem option_value (g : Group) (k : Option Ns) (d : Bool) :
 theorem disabled_is_unrestricted (s : Stored) (k : Ns) (h : s.enabled = false) : (build s).check k = true :=
   (check_iff_permitted s k).mpr (Or.inl h)
 
+/-! ### changing a user's group (`UserManager::update_user`, what the next login copies into the session) -/
+
+/-- every list and flag that an update names replaces the stored one - an empty list included -/
+theorem update_sets_given_fields (s : Stored) (p : Param) :
+    (∀ w, p.whitelist = some w → (updateUser s (some p)).whitelist = w) ∧
+    (∀ b, p.blacklist = some b → (updateUser s (some p)).blacklist = b) ∧
+    (∀ x, p.whitelistIsAll = some x → (updateUser s (some p)).whitelistIsAll = x) ∧
+    (∀ x, p.blacklistIsAll = some x → (updateUser s (some p)).blacklistIsAll = x) := by
+  refine ⟨?_, ?_, ?_, ?_⟩ <;> intro v hv <;> simp [updateUser, hv]
+
+/-- and what it does not name stays as stored (for an enabled group) -/
+theorem update_keeps_unnamed_fields (s : Stored) (p : Param) (he : s.enabled = true) :
+    (p.whitelist = none → (updateUser s (some p)).whitelist = s.whitelist) ∧
+    (p.blacklist = none → (updateUser s (some p)).blacklist = s.blacklist) ∧
+    (p.whitelistIsAll = none → (updateUser s (some p)).whitelistIsAll = s.whitelistIsAll) ∧
+    (p.blacklistIsAll = none → (updateUser s (some p)).blacklistIsAll = s.blacklistIsAll) := by
+  refine ⟨?_, ?_, ?_, ?_⟩ <;> intro hv <;> simp [updateUser, hv, build, he]
+
+/-- **revoking works**: after an update that empties the whitelist of a user who is not whitelisted for everything,
+the session of the next login is permitted no namespace at all -/
+theorem cleared_whitelist_permits_nothing (s : Stored) (p : Param) (hw : p.whitelist = some [])
+    (hall : (updateUser s (some p)).whitelistIsAll = false) (k : Ns) :
+    (build (updateUser s (some p))).check k = false := by
+  have h1 := (update_sets_given_fields s p).1 [] hw
+  have he : (updateUser s (some p)).enabled = true := rfl
+  cases hc : (build (updateUser s (some p))).check k with
+  | false => rfl
+  | true =>
+    have := (check_iff_permitted _ _).mp hc
+    unfold Permitted at this
+    rcases this with h | ⟨h, _⟩
+    · rw [he] at h; cases h
+    · rcases h with h | h
+      · rw [hall] at h; cases h
+      · rw [h1] at h; cases h
+
+/-- a namespace that an update puts on the blacklist is excluded from then on, whatever the whitelist says -/
+theorem update_blacklist_excludes (s : Stored) (p : Param) (b : List Ns) (hb : p.blacklist = some b) (k : Ns)
+    (hk : canon k ∈ b) : (build (updateUser s (some p))).check k = false := by
+  have h1 := (update_sets_given_fields s p).2.1 b hb
+  have he : (updateUser s (some p)).enabled = true := rfl
+  cases hc : (build (updateUser s (some p))).check k with
+  | false => rfl
+  | true =>
+    have := (check_iff_permitted _ _).mp hc
+    unfold Permitted at this
+    rcases this with h | ⟨_, h⟩
+    · rw [he] at h; cases h
+    · exact absurd (Or.inr (by rw [h1]; exact hk)) h
+
+/-- a new user without a privilege parameter is unrestricted; with one, the lists are exactly the given ones -/
+theorem add_user_lists (p : Param) :
+    (addUser (some p)).whitelist = p.whitelist.getD [] ∧ (addUser (some p)).blacklist = p.blacklist.getD [] ∧
+    ∀ k, (build (addUser none)).check k = true := by
+  refine ⟨rfl, rfl, fun k => ?_⟩
+  exact (check_iff_permitted _ _).mpr (Or.inr ⟨Or.inl rfl, by simp [addUser]⟩)
+
 /-! ### non-vacuity -/
 example : (build ⟨true, false, false, [[110, 115, 97]], []⟩).check [110, 115, 97] = true ∧
     (build ⟨true, false, false, [[110, 115, 97]], []⟩).check [110, 115, 98] = false ∧
     (build ⟨true, true, false, [], [[110, 115, 97]]⟩).check [110, 115, 97] = false := by decide
+
+example : (build (updateUser ⟨true, false, false, [[110, 115, 97]], []⟩ (some { whitelist := some [] }))).check [110, 115, 97] = false := by decide
 
 end RNacos.Props.C18
